@@ -346,8 +346,11 @@ class HashClient:
         return succeeded, failed, None
 
     def close(self):
+        # Closing is not a request: it must not go through the failover
+        # bookkeeping, where it would count as a successful retry of a failing
+        # server (and hand it a fresh retry budget) or be skipped for one.
         for client in self.clients.values():
-            self._safely_run_func(client, client.close, False)
+            client.close()
 
     disconnect_all = close
 
